@@ -313,6 +313,28 @@ def check(run: common.Run):
                 jid = len(jobs)
                 jobs.append((jid, s_, n, 1))
                 meta[jid] = ("rule", n)
+    # round-5 families: backslash continuations onto blank / comment lines x rules that insert, delete or move whole
+    # lines; comparison pairs with heterogeneous constants x the symbolic_math rules; type confusion x constant consumers.
+    # Rule calls go to the workers in batches (oracle = compile() of the result, evaluated in the worker).
+    quick = run.tier == "quick"
+    hb = [s_ for s_ in valid_srcs["hetero_bounds"] if not quick or s_ in dh.HETERO_CORE]
+    r5 = (("continuations", valid_srcs["continuations"], dh.LINE_RULES, (0, 6) if quick else (0, 2, 4, 6)),
+          ("hetero_bounds", hb[::4] if quick else hb, dh.SYMBOLIC_MATH_RULES, (0,) if quick else (0, 6)),
+          ("type_confusion", valid_srcs["type_confusion"][::3] if quick else valid_srcs["type_confusion"],
+           dh.TYPE_CONFUSION_RULES, (6,) if quick else (0, 6)))
+    for name, srcs, rules, cids in r5:
+        for i, s_ in enumerate(srcs):
+            for c in (cids if name == "continuations" else (cids[i % len(cids)],)):
+                jid = len(jobs)
+                jobs.append((jid, s_, sw.OPTION_COMBOS[c], 1))
+                meta[jid] = ("format_code", name)
+        for n in (rules if quick else sorted(set(rules) | {n_ for n_ in kinds if n_.split(".")[0] in ("fixes", "abstractions", "symbolic_math")})):
+            # text stages see what format_code hands them: a text that ends in a line break
+            batch_srcs = [s_ if n.split(".")[0] != "rmspace" or s_[-1:] in ("\n", "\r") else s_ + "\n" for s_ in srcs]
+            for k in range(0, len(batch_srcs), 80):
+                jid = len(jobs)
+                jobs.append((jid, batch_srcs[k:k + 80], n, 2))
+                meta[jid] = ("rule-batch", n)
     for s_ in TAB_SOURCES:      # tab-indented source handed to the rules directly (format_code expands tabs first)
         for n in ("fixes.move_before_loop", "fixes.early_continue", "fixes.fix_duplicate_imports",
                   "abstractions.overused_constant", "abstractions.simplify_if_control_flow"):
@@ -344,6 +366,24 @@ def check(run: common.Run):
     invalid_outs = []
     syntax_seen = set()
     matched_ids = set()
+    # a batch of rule calls becomes one entry per source that raised / gave a text compile() rejects
+    for jid in [j for j, (k_, _) in meta.items() if k_ == "rule-batch"]:
+        r, (_, rule), srcs_ = results.pop(jid), meta[jid], jobs[jid][1]
+        if r.get("skipped"):
+            sweep["skipped (time budget)"] += 1
+            continue
+        batch = r.get("batch") or []
+        sweep["rule runs"] += len(batch)
+        items = [(srcs_[k], b) for k, b in enumerate(batch) if b]
+        if (r.get("timeout") or r["error"]) and len(batch) < len(srcs_):
+            sweep["raised (not a SyntaxError) or timed out: C04's business"] += 1
+        for one, b in items:
+            nid = len(jobs)
+            jobs.append((nid, one, rule, 1))
+            meta[nid] = ("rule", rule)
+            results[nid] = ({"outs": [b["invalid_out"]], "error": None, "timeout": False} if "invalid_out" in b
+                            else {"outs": [], "error": b, "timeout": False})
+            sweep["rule runs"] -= 1
     for jid, r in sorted(results.items()):
         kind, name = meta[jid]
         if r.get("skipped"):
